@@ -14,6 +14,7 @@ verus! {
 //@include lib/writeback.rs
 //@include lib/forest_iict.rs
 //@include lib/forest_incr.rs
+//@include lib/inv_specs.rs
 //@include lib/build_specs.rs
 pub open spec fn cap_of(opt: &BuildOption, dimensions: usize) -> u64 {
     (match opt.split_after { Some(s) => s, None => dimensions }) as u64
